@@ -195,7 +195,16 @@ def judgeQuery (t : Tables) (r : Run) (tieOk : Bool) : List (String × String) :
   let obsI := r.pages.flatMap (·.k)
   let obsD := r.pages.flatMap (·.d)
   let obsC := r.pages.flatMap (·.c)
-  let anyTrunc := r.pages.any (·.trunc)
+  -- the trigger of the delimiter-paging defect: with a delimiter the store truncates by the number
+  -- of raw rows the statement selects after the start marker, not by the number of listed entries
+  let rawCount : Nat := match family q.op with
+    | "objects" => (t.okeys.filter fun k => matchPrefix objectsFilter q.pfx k && afterKey (q.km.getD []) k).length
+    | "uploads" =>
+      let mu := match q.msub with
+        | some s => if t.urows.any (·.sub == s) then s else 0
+        | none => 0
+      (t.urows.filter fun (r : Row) => matchPrefix uploadsFilter q.pfx r.key && afterUpload (q.km.getD []) mu r).length
+    | _ => 0
   if fam == "parts" then
     let exp := (S3List.expectedParts t.parts (q.msub.getD 0)).map toString
     match discrepancy obsI exp [] [] with
@@ -276,9 +285,11 @@ def judgeQuery (t : Tables) (r : Run) (tieOk : Bool) : List (String × String) :
       if nullOrder then "null-version-order"
       else if !q.delim.isEmpty && groupingDiffers keys q.pfx q.delim then
         (if q.delim.length ≥ 2 then "multichar-delimiter-grouping" else "grouping")
-      else if !q.delim.isEmpty && anyTrunc && (fam == "objects" || fam == "uploads") then "delimiter-paging"
+      else if !q.delim.isEmpty && rawCount > q.max && (fam == "objects" || fam == "uploads") then "delimiter-paging"
       else d
-    out := out ++ [(s!"C06.{fam}.{cause}{sfx}", s!"{ctx}:{d}:{detail}")]
+    -- determineCommonPrefix is one function shared by the three listings: one signature
+    let sig := if cause == "multichar-delimiter-grouping" then s!"C06.{cause}{sfx}" else s!"C06.{fam}.{cause}{sfx}"
+    out := out ++ [(sig, s!"{ctx}:{d}:{detail}")]
   return out
 
 /-! ### one case -/
